@@ -35,14 +35,18 @@ def _stream_case(draw):
         train = list(draw(streamreg.training_set(regime, d, classes)))
     return dict(kind="stream", ckind=kind, name=name, config=cfg,
                 classes=classes, chunks=chunks, train=train,
+                shared_bm=draw(st.booleans()),
                 g1=draw(st.integers(0, 10**6)),
                 g2=10**6 + 1 + draw(st.integers(0, 10**6)))
 
 
-def _run_stream_once(case, gseed):
+def _run_stream_once(case, gseed, bm_obj=None):
     kind, name = case["ckind"], case["name"]
     np.random.seed(gseed)
-    obj = streamreg.build(kind, name, case["config"])
+    if bm_obj is not None:
+        obj = streamreg.build_strategy(name, case["config"], bm_obj=bm_obj)
+    else:
+        obj = streamreg.build(kind, name, case["config"])
     clf = X = y = None
     if case["train"] is not None:
         X = np.array(case["train"][0], dtype=float)
@@ -67,10 +71,18 @@ def _run_stream(case):
                                      case["config"])
     labels = [f"component={comp}", "kind=stream"]
     res = []
+    # the caller may construct ONE budget manager object and hand it to both
+    # (equally parameterised) strategy objects
+    shared = None
+    if (case["ckind"] == "strategy" and case["config"].get("bm")
+            and case.get("shared_bm")):
+        bm = case["config"]["bm"]
+        shared = streamreg.build_manager(bm["name"], bm["config"])
+        labels.append("shared_budget_manager_object")
     for g in (case["g1"], case["g2"]):
         try:
             with quiet(), time_limit():
-                res.append(_run_stream_once(case, g))
+                res.append(_run_stream_once(case, g, bm_obj=shared))
         except Exception as e:  # C10's business (update totality)
             res.append(e)
     a, b = res
@@ -87,7 +99,9 @@ def _run_stream(case):
         denied += len(case["chunks"][i]) - len(q1)
         if q1 != q2:
             viol.append(Violation(comp, "twin_objects_differ",
-                                  "stream&queried_indices",
+                                  "stream&queried_indices"
+                                  + ("&shared_bm_object" if shared is not None
+                                     else ""),
                                   f"step {i}: {q1} vs {q2}"))
             break
         if u1 is not None and not arr_close(u1, u2, **SAME):
